@@ -121,4 +121,13 @@ theorem flow_dispatch_order : Ebu.Flow.dispatchOrder = true := by decide +kernel
 /-- OBLIGATION: fired once handlers are removed after the loop, under the write lock, by pointer identity of the registration, one entry each -/
 theorem flow_retire_by_identity : Ebu.Flow.retireByIdentity = true := by decide +kernel
 
+/-- OBLIGATION: `Subscribe` / `SubscribeContext` apply the options (refusing a nil one) before the registration becomes visible and append it – once – under the shard's write lock -/
+theorem flow_subscribe_shape : Ebu.Flow.subscribeShape = true := by decide +kernel
+
+/-- OBLIGATION: `Unsubscribe` removes, under the write lock, the FIRST registration with the given code pointer and returns at once (exactly one registration); `handler not found` only after the whole list was searched -/
+theorem flow_unsubscribe_first_match : Ebu.Flow.unsubscribeShape = true := by decide +kernel
+
+/-- OBLIGATION: `Clear` deletes the type's entry, `ClearAll` replaces every shard's map, each under the shard's write lock -/
+theorem flow_clear_shape : Ebu.Flow.clearShape = true := by decide +kernel
+
 end Ebu.Props.C01
